@@ -98,6 +98,11 @@ impl Vm {
 
     pub fn prepare_eval(&mut self, cell: &Cell) -> Result<(), Error> {
         self.last_stacktrace = None;
+        // A procedure, macro or continuation as the host sees it (in the result of an earlier
+        // evaluation, say) is a rendering, not something that can be put back into a program.
+        if !cell.is_datum() {
+            return Err(Error::InvalidSyntax(format!("{:#}", cell)));
+        }
         let lambda = match self.compile_runnable(cell) {
             Ok(lambda) => lambda,
             Err(e) => {
